@@ -23,7 +23,7 @@
 #ifdef C17_VIEW_CONTRACT
 /* ---------------------------------------------------------------- view contract (bounded, per shape) */
 extern const unsigned char *G_BLK;          /* the block */
-extern int G_K, G_KEY[4], G_VAL[4];         /* ghost view: entry count, key offsets, value offsets (-1 none) */
+extern int G_K, G_KEY[8], G_VAL[8];         /* ghost view: entry count, key offsets, value offsets (-1 none) */
 #define G_TITLE(j) ((const char *)G_BLK + G_KEY[j])
 #define G_VALUE(j) (G_VAL[j] < 0 ? (const char *)0 : (const char *)G_BLK + G_VAL[j])
 #define AT_ENTRY(t, j) ((j) < G_K && (t) == G_TITLE(j))
@@ -35,7 +35,7 @@ extern int G_K, G_KEY[4], G_VAL[4];         /* ghost view: entry count, key offs
 static void MetaIterator_inc__by_contract(struct MetaIterator *self)
 {
     int j = -1;
-    for(int i = 0; i < 4; i++)
+    for(int i = 0; i < 8; i++)
         if(j < 0 && AT_ENTRY(self->title, i))
             j = i;
     __CPROVER_assert(j >= 0, "C17 requires of operator++ (view contract): the iterator is at an entry of the block");
@@ -108,7 +108,7 @@ extern size_t M_T;                          /* ghost: offset of the block termin
 size_t MetaContainer_length(const struct MetaContainer *self)
 __CPROVER_requires(__CPROVER_r_ok(self, sizeof(*self)))
 __CPROVER_requires(M_BLOCK_OK && M_T >= 3 && M_LEN == M_T + 1 && __CPROVER_same_object(self->str_ptr, M_BLK) && M_OFF(self->str_ptr) == 1
-                   && M_BLK[1] != 0 && M_BLK[M_T] == 0 && M_BLK[M_T - 1] == 0)
+                   && M_BLK[0] == ':' && M_BLK[1] != 0 && M_BLK[1] != ':' && M_BLK[M_T] == 0 && M_BLK[M_T - 1] == 0)
 /* no earlier "NUL NUL": for the arbitrary offset M_G */
 __CPROVER_requires(M_G < 2 || M_G >= M_T || M_BLK[M_G - 1] != 0 || M_BLK[M_G] != 0)
 __CPROVER_assigns()
